@@ -33,6 +33,27 @@ def unit_response_network(cdesc, w, source_id):
     return {'ref': circdesc.ground_of(cdesc), 'branches': brs}
 
 
+def construction_kappa(cdesc):
+    """condition number of the DC nodal matrix the state-space builder inverts (capacitors as current injections, inductors and
+    voltage sources as voltage-source rows): the floating-point error of A, B, C, D scales with it, whatever the probe frequency"""
+    from ..ref import floatmna
+    brs = []
+    for c in cdesc['components']:
+        if c['ctor'] == 'ground':
+            continue
+        base = {'id': c['id'], 'n1': c['nodes'][0], 'n2': c['nodes'][1]}
+        if is_vsrc(c) or c['ctor'] == 'inductance':
+            brs.append({**base, 'kind': 'V', 'V': 1.0})
+        elif is_isrc(c) or c['ctor'] == 'capacitor':
+            brs.append({**base, 'kind': 'I', 'I': 1.0})
+        else:
+            brs.append(circdesc.ref_branch(c, 0.0))
+    try:
+        return floatmna.kappa_and_scales({'ref': circdesc.ground_of(cdesc), 'branches': brs})[0]
+    except Exception:
+        return float('inf')
+
+
 def _acyclic(edges):
     parent = {}
 
